@@ -80,6 +80,13 @@ func typeKey(t types.Type) string {
 	case *types.Map:
 		return "map[" + typeKey(u.Key()) + "]" + typeKey(u.Elem())
 	}
+	if n, ok := t.(*types.Named); ok {
+		// a named type over a basic type shares storage classes with its underlying type
+		// (pointer conversions such as (*uint64)(gp) alias the same cell)
+		if b, ok := n.Underlying().(*types.Basic); ok {
+			return typeKey(b)
+		}
+	}
 	return types.TypeString(t, func(p *types.Package) string { return p.Path() })
 }
 
@@ -194,7 +201,7 @@ func (r *TypeReg) structDT(t types.Type) *DT {
 
 // TypeID returns a stable small positive integer for a dynamic type (interface tags).
 func (r *TypeReg) TypeID(t types.Type) int {
-	k := typeKey(t)
+	k := types.TypeString(types.Unalias(t), func(p *types.Package) string { return p.Path() })
 	if id, ok := r.typeIDs[k]; ok {
 		return id
 	}
